@@ -256,49 +256,66 @@ Proof.
   intros Hp. zify_divmod. lia.
 Qed.
 
-Lemma event_redraw lost st s id p img hash : Inv false st s -> lookup id (k_imgs st) = Some (img, hash) ->
-  let pre := pre_err lost id s in
+(* the commands handle writes for an error response naming a cached image and a placement, run on any
+   terminal state s0 that is related to the handler (after the removal of the image from its cache) *)
+Lemma redraw_run strict st s0 id p img hash sup : cache_wf st -> ids_range (k_ids st) ->
+  lookup id (k_imgs st) = Some (img, hash) ->
+  Inv strict (mkKitty (remove_key id (k_imgs st)) (k_ids st) (Some 2)) s0 -> t_sent s0 = [] ->
   let pos := placement_to_pos p in
-  let s' := store_run pre (handle_items st (EvKitty id (Some p) true)) in
+  let s' := store_run s0 (handle_items st (EvKitty id (Some p) true)) in
+  Inv strict (mkKitty ((id, (img, hash)) :: remove_key id (k_imgs st)) (ids_note (k_ids st) hash) sup) s' /\
   t_sent s' = [(id, content_of img)] /\
   t_places s' = (id, placement_id pos, Some pos)
                 :: filter (fun q => negb (is_place id (placement_id pos) q))
-                     (filter (fun q => negb (place_id q =? id)) (t_places pre)) /\
-  t_cursor s' = t_cursor pre /\
+                     (filter (fun q => negb (place_id q =? id)) (t_places s0)) /\
+  t_cursor s' = t_cursor s0 /\
   pids_named (handle_items st (EvKitty id (Some p) true)) = Some [placement_id pos].
 Proof.
-  intros HI Hl. pose proof HI as [Hc He Hp Hi Hv Hpc Hir].
+  intros Hc Hir Hl HI0 Hs0.
   destruct (Hc _ _ _ Hl) as (Hlk & Hwf & Hne).
   pose proof (image_id_known st hash id Hlk) as Hid.
-  destruct (pre_err_facts lost id s) as (Hs0 & Hp0' & He0).
   cbn [handle_items]. rewrite Hl.
-  set (st1 := mkKitty (remove_key id (k_imgs st)) (k_ids st) (Some 2)).
+  set (st1 := mkKitty (remove_key id (k_imgs st)) (k_ids st) (Some 2)) in *.
   set (pos := placement_to_pos p).
   change (image_id st hash) with (image_id st1 hash) in Hid.
   assert (Hl1 : lookup (image_id st1 hash) (k_imgs st1) = None) by (rewrite Hid; apply lookup_remove_same).
   rewrite (draw_items_fresh st1 img hash pos Hne Hl1).
-  set (s0 := pre_err lost id s) in *.
-  cbv zeta. split; [|split; [|split]].
-  4:{ rewrite pids_named_eq. cbn [flat_map item_pids app]. rewrite !flat_map_app. unfold tx_items.
-      rewrite pids_chunks. cbn [flat_map app]. rewrite pids_put. reflexivity. }
-  all: rewrite !store_run_cons.
-  all: assert (Hp0 : t_pending s0 = None) by (rewrite Hp0'; exact Hp).
-  all: set (s1 := item_step s0 ISave).
-  all: assert (E1 : s1 = set_cursor (t_cursor s0) (Some (t_cursor s0)) s0)
+  cbv zeta.
+  assert (Hpids : pids_named (ISave :: IMoveTo (fst pos + 1) (snd pos + 1)
+                    :: (tx_items (image_id st1 hash) (qval st1) img ++ [put_item (image_id st1 hash) (placement_id pos) (qval st1)])
+                    ++ [IRestore]) = Some [placement_id pos]).
+  { rewrite pids_named_eq. cbn [flat_map item_pids app]. rewrite !flat_map_app. unfold tx_items.
+    rewrite pids_chunks. cbn [flat_map app]. rewrite pids_put. reflexivity. }
+  rewrite !store_run_cons.
+  assert (Hp0 : t_pending s0 = None) by exact (inv_pending _ _ _ HI0).
+  set (s1 := item_step s0 ISave).
+  assert (E1 : s1 = set_cursor (t_cursor s0) (Some (t_cursor s0)) s0)
     by (unfold s1; cbn [item_step]; rewrite Hp0; reflexivity).
-  all: set (s2 := item_step s1 (IMoveTo (fst pos + 1) (snd pos + 1))).
-  all: assert (E2 : s2 = set_cursor (Some pos) (t_saved s1) s1)
+  set (s2 := item_step s1 (IMoveTo (fst pos + 1) (snd pos + 1))).
+  assert (E2 : s2 = set_cursor (Some pos) (t_saved s1) s1)
     by (unfold s2; cbn [item_step]; rewrite E1; cbn [set_cursor t_pending]; rewrite Hp0, !pred_max_succ;
         destruct pos; reflexivity).
-  all: assert (Hp2 : t_pending s2 = None) by (rewrite E2, E1; exact Hp0).
-  all: rewrite store_run_app.
-  all: rewrite (run_draw_fresh s2 (image_id st1 hash) (placement_id pos) (qval st1) img Hp2 Hwf Hne
-                  (image_id_range st1 hash Hir) (placement_id_range pos)).
-  all: cbn [store_run fold_left item_step t_pending set_cursor t_sent t_places t_cursor t_saved].
-  all: rewrite ?Hid.
+  assert (Hp2 : t_pending s2 = None) by (rewrite E2, E1; exact Hp0).
+  assert (HI2 : Inv strict st1 s2) by (rewrite E2, E1; apply inv_set_cursor, inv_set_cursor, HI0).
+  rewrite store_run_app.
+  destruct (inv_draw_fresh strict st1 s2 sup img hash (placement_id pos) (qval st1) HI2 Hwf Hne Hl1
+              (placement_id_range pos)) as (HI3 & _).
+  cbv zeta in HI3.
+  set (s3 := store_run s2 (tx_items (image_id st1 hash) (qval st1) img ++
+                           [put_item (image_id st1 hash) (placement_id pos) (qval st1)])) in *.
+  assert (E4 : item_step s3 IRestore =
+               set_cursor (match t_saved s3 with Some c => c | None => Some (0, 0) end) (t_saved s3) s3).
+  { cbn [item_step]. rewrite (inv_pending _ _ _ HI3). reflexivity. }
+  cbn [store_run fold_left]. rewrite E4.
+  split; [rewrite Hid in HI3; apply inv_set_cursor, HI3|].
+  assert (E3 : s3 = _) by (unfold s3; apply (run_draw_fresh s2 (image_id st1 hash) (placement_id pos) (qval st1) img Hp2 Hwf Hne
+             (image_id_range st1 hash Hir) (placement_id_range pos))).
+  rewrite E3. cbn [set_cursor t_sent t_places t_cursor t_saved]. rewrite Hid.
+  repeat split.
   - rewrite E2, E1. cbn [set_cursor t_sent]. rewrite Hs0. reflexivity.
   - rewrite E2, E1. cbn [set_cursor t_places t_cursor]. reflexivity.
   - rewrite E2, E1. cbn [set_cursor t_saved]. reflexivity.
+  - rewrite Hid in Hpids. exact Hpids.
 Qed.
 
 Lemma places_filter2 id pid (l : list place) :
@@ -441,12 +458,8 @@ Section World.
       rewrite pl_same_add. cbn [negb]. rewrite Hlw.
       eexists. split; [reflexivity|].
       constructor; cbn [tk_store tk_sent tk_ids tk_where k_imgs k_ids]; try assumption; try exact HI''; try exact Hids'.
-      + intros x. change (nmem x (image_id st h :: tk_sent t)) with ((x =? image_id st h) || nmem x (tk_sent t)).
-        rewrite Hsent. unfold keys at 2. cbn [k_imgs]. fold (keys st).
-        destruct (x =? image_id st h) eqn:E; [|reflexivity]. apply N.eqb_eq in E. subst x.
-        rewrite nmem_keys, Hl. reflexivity.
-      + intros id img1 h1 Hl1. cbn [k_imgs] in Hl1. destruct (Hcache _ _ _ Hl1) as (c1 & Hin1 & Hc1).
-        exists c1. split; [exact Hin1|apply Hsub, Hc1].
+      intros id img1 h1 Hl1. cbn [k_imgs] in Hl1. destruct (Hcache _ _ _ Hl1) as (c1 & Hin1 & Hc1).
+      exists c1. split; [exact Hin1|apply Hsub, Hc1].
     - (* not cached: transmission, then placement *)
       rewrite (draw_items_fresh st img h pos Hne Hl) in *.
       rewrite (draw_fresh st img h pos Hne Hl) in *. cbn [snd] in *.
@@ -542,47 +555,54 @@ Section World.
         change (1 =? 1) with true. cbn [negb].
         eexists. split; [reflexivity|].
         constructor; cbn [with_store tk_store tk_sent tk_ids tk_where]; assumption. }
-    (* error response *)
-    rewrite pre_store_err in HI'.
-    change (match (if lost then true else false) with _ => _ end) with (pre_err lost id (tk_store t)) || idtac.
-    assert (Epre : (if lost then store_forget id (clear_log (tk_store t)) else clear_log (tk_store t)) =
-                   pre_err lost id (tk_store t)) by reflexivity.
+    (* error response: the predicate starts from the sentinel cursor with nothing saved *)
+    clear HI'.
     replace (match lost with
              | true => store_forget id (clear_log (tk_store t))
              | false => clear_log (tk_store t)
              end) with (pre_err lost id (tk_store t)) by (destruct lost; reflexivity).
-    set (pre := pre_err lost id (tk_store t)) in *.
-    destruct (pre_err_facts lost id (tk_store t)) as (Hs0 & Hp0' & He0). fold pre in Hs0, Hp0', He0.
+    set (pre := set_cursor (Some CUR_SENTINEL) None (pre_err lost id (tk_store t))) in *.
+    destruct (pre_err_facts lost id (tk_store t)) as (Hs0 & Hp0' & He0).
+    assert (Hs0' : t_sent pre = []) by exact Hs0.
     set (sent0 := filter (fun i => negb (i =? id)) (tk_sent t)).
     assert (Hsent0 : forall x, nmem x sent0 = nmem x (filter (fun y => negb (y =? id)) (keys st))).
     { intros x. unfold sent0. rewrite !nmem_filter, Hsent. reflexivity. }
+    assert (Hdis : false = true -> lost = true) by discriminate.
     destruct (lookup id (k_imgs st)) as [[img hash]|] eqn:Hl.
     2:{ (* unknown to the handler *)
         assert (E : handle_items st (EvKitty id pl true) = []) by (unfold handle_items; rewrite Hl; destruct pl; reflexivity).
         assert (Eh : handle st (EvKitty id pl true) = ([], st, true)) by (unfold handle; rewrite Hl; reflexivity).
+        assert (HIp : Inv false st pre).
+        { apply inv_set_cursor. apply (inv_pre_err false lost st st (tk_store t) id Hdis Hl); [reflexivity|reflexivity|exact HI]. }
         rewrite E, Eh in *. cbn [fst snd store_run fold_left] in *.
-        rewrite (inv_errs _ _ _ HI'), (inv_pending _ _ _ HI').
-        change (1 =? 1) with true. cbn [negb]. rewrite cur_eqb_refl, Hs0, pl_same_refl. cbn [negb].
+        rewrite (inv_errs _ _ _ HIp), (inv_pending _ _ _ HIp).
+        change (1 =? 1) with true. cbn [negb]. rewrite cur_eqb_refl, Hs0', pl_same_refl. cbn [negb].
         eexists. split; [reflexivity|].
         constructor; cbn [tk_store tk_sent tk_ids tk_where]; try assumption.
         intros x. fold sent0. rewrite Hsent0. unfold keys. rewrite filter_keys_absent by exact Hl. reflexivity. }
     destruct (Hcw _ _ _ Hl) as (Hlk & Hwf & Hne).
     pose proof (image_id_known st hash id Hlk) as Hid.
+    assert (HIp1 : forall sup, Inv false (mkKitty (remove_key id (k_imgs st)) (k_ids st) sup) pre).
+    { intros sup. apply inv_set_cursor. apply (inv_pre_err false lost st _ (tk_store t) id Hdis);
+        [apply lookup_remove_same| |reflexivity|exact HI].
+      cbn [k_imgs]. intros id' Hne'. apply lookup_remove_other, Hne'. }
     destruct pl as [p|].
     2:{ (* no placement: the image is only dropped from the cache *)
         assert (Eh : handle st (EvKitty id None true) = ([], mkKitty (remove_key id (k_imgs st)) (k_ids st) (k_suppress st), true))
           by (unfold handle; rewrite Hl; reflexivity).
         assert (E : handle_items st (EvKitty id None true) = []) by reflexivity.
+        pose proof (HIp1 (k_suppress st)) as HIp.
         rewrite E, Eh in *. cbn [fst snd store_run fold_left] in *.
-        rewrite (inv_errs _ _ _ HI'), (inv_pending _ _ _ HI').
-        change (1 =? 1) with true. cbn [negb]. rewrite cur_eqb_refl, Hs0, pl_same_refl. cbn [negb].
+        rewrite (inv_errs _ _ _ HIp), (inv_pending _ _ _ HIp).
+        change (1 =? 1) with true. cbn [negb]. rewrite cur_eqb_refl, Hs0', pl_same_refl. cbn [negb].
         eexists. split; [reflexivity|].
         constructor; cbn [tk_store tk_sent tk_ids tk_where k_imgs k_ids]; try assumption.
         - intros x. fold sent0. rewrite Hsent0. unfold keys. cbn [k_imgs]. rewrite keys_remove. reflexivity.
         - intros id' img1 h1 Hl1. cbn [k_imgs] in Hl1. apply remove_key_sub in Hl1 as [_ Hl1]. exact (Hcache _ _ _ Hl1). }
     (* placement: cursor save, move, re-transmission, placement, cursor restore *)
-    destruct (event_redraw lost st (tk_store t) id p img hash HI Hl) as (Hs' & Hpl' & Hcur' & Hpids).
-    cbv zeta in Hs', Hpl', Hcur'. fold pre in Hs', Hpl', Hcur'.
+    destruct (redraw_run false st pre id p img hash (k_suppress st) Hcw Hir Hl (HIp1 (Some 2)) Hs0')
+      as (HI' & Hs' & Hpl' & Hcur' & Hpids).
+    cbv zeta in HI', Hs', Hpl', Hcur'.
     set (its := handle_items st (EvKitty id (Some p) true)) in *.
     set (s' := store_run pre its) in *.
     set (pos' := placement_to_pos p) in *.
@@ -618,6 +638,10 @@ Section World.
     assert (Hsim : forall w', where_ok w' -> Sim (snd (fst (handle st (EvKitty id (Some p) true))))
                                                (mkTrack s' (tk_ids t) (id :: sent0) w')).
     { intros w' Hw'. constructor; cbn [tk_store tk_sent tk_ids tk_where]; try assumption.
+      - rewrite Enote in HI'. refine (inv_same_cache false _ _ s' _ _ _ HI').
+        + exact Eimgs.
+        + cbn [k_ids]. rewrite Eids. auto.
+        + rewrite Eids. exact Hir.
       - intros x. change (nmem x (id :: sent0)) with ((x =? id) || nmem x sent0).
         rewrite Hsent0. unfold keys. rewrite Eimgs. cbn [map fst]. rewrite keys_remove. reflexivity.
       - unfold tids_ok. rewrite Eids. exact Hids.
@@ -637,6 +661,9 @@ Section World.
                     Some (id, pid, Some pos')).
     { rewrite Hpl'. cbn [find place_id place_pid fst snd]. rewrite !N.eqb_refl. reflexivity. }
     rewrite Hfind.
+    assert (Hsen : pos_eqb pos' CUR_SENTINEL = false).
+    { unfold pos_eqb, CUR_SENTINEL, in_dom in *. cbn [fst snd]. destruct Hd' as [Hd1 Hd2]. lia. }
+    rewrite Hsen.
     assert (Hwp : match where_pos id pid (tk_where t) with
                   | Some pos => negb (pos_eqb pos' pos)
                   | None => false
